@@ -74,7 +74,7 @@ def check_program(env, prog, label, ndata):
     from vf.checks.c06 import has_duplicates as _hd, has_py_duplicates
 
     def has_duplicates(d):
-        return _hd(d) or has_py_duplicates(d)
+        return _hd(d) or has_py_duplicates(d) or has_py_duplicates(d, unordered=True)
 
     from vf.spec import Coll
     has_sets = any(isinstance(n, Coll) and n.c in ("set", "absset", "mutset", "frozenset") for n in t.walk())
